@@ -195,6 +195,10 @@ type yaoOpts struct {
 	// randFailAfter > 0: that source fails after so many bytes.
 	randSeed      uint64
 	randFailAfter int
+	// shortReads > 0: the garbler's entropy source returns at most so many
+	// bytes per Read call (as a bufio.Reader or a pipe in front of the real
+	// source does): the byte stream is the same, only its delivery differs
+	shortReads int
 	// verbose: the parties' verbose flag (and Params.Verbose of the streaming compiler)
 	verbose bool
 	// cc: the garbler's Compiler instance (nil = a fresh one); it must have
@@ -205,7 +209,25 @@ type yaoOpts struct {
 	srcName string
 }
 
+// shortReader delivers the stream of r at most max bytes per call.
+type shortReader struct {
+	r   io.Reader
+	max int
+}
+
+func (s *shortReader) Read(p []byte) (int, error) {
+	if len(p) > s.max {
+		p = p[:s.max]
+	}
+	return s.r.Read(p)
+}
+
 func (o yaoOpts) entropy(r *vrt.Rng) io.Reader {
+	if o.shortReads > 0 {
+		o2 := o
+		o2.shortReads = 0
+		return &shortReader{r: o2.entropy(r), max: o.shortReads}
+	}
 	if o.randSeed == 0 {
 		return r.Fork()
 	}
